@@ -56,6 +56,10 @@ func c07Seeds(thorough bool) []*devSeed {
 			}
 			key = rootSig(n) + "|" + fmt.Sprint(sorted2(ks))
 		}
+		if n.K == "packet_in" {
+			// packet-ins differ by their payload (decoded by the packet decoders): one seed per payload
+			key += fmt.Sprintf("|payload:%x", hashBytes(n.B["Data"]))
+		}
 		if c := best[key]; c == nil || len(b) < c.sz {
 			best[key] = &cand{key, n, len(b)}
 		}
